@@ -612,6 +612,23 @@ class State:
         term is only a necessary condition (length equality)."""
         sa = self.expand(self.to_rope(a).segs)
         sb = self.expand(self.to_rope(b).segs)
+
+        def same(x, y):
+            if isinstance(x, Chunk) or isinstance(y, Chunk):
+                return isinstance(x, Chunk) and isinstance(y, Chunk) and x.t.eq(y.t)
+            if isinstance(x, int) or isinstance(y, int):
+                return isinstance(x, int) and isinstance(y, int) and x == y
+            return x.eq(y)
+        # strip syntactically identical prefix and suffix
+        while sa and sb and same(sa[0], sb[0]):
+            sa, sb = sa[1:], sb[1:]
+        while sa and sb and same(sa[-1], sb[-1]):
+            sa, sb = sa[:-1], sb[:-1]
+        if not sa or not sb:
+            rest = sa or sb
+            if any(not isinstance(x, Chunk) for x in rest):
+                return z3.BoolVal(False), True       # one side has an extra octet
+            return (z3.And([x.len == 0 for x in rest]) if rest else z3.BoolVal(True)), True
         conj = []
         i = j = 0
         exact = True
